@@ -89,7 +89,7 @@ func (g *c03gen) hashOf(t reflect.Type) (string, bool) {
 var c03Faults = []string{
 	"unknown-name", "unknown-field", "unknown-func", "unknown-method", "wrong-arity", "wrong-arg-type",
 	"int-literal-to-non-numeric-param", "non-bool-condition", "non-bool-predicate", "mismatched-operands",
-	"non-collection-builtin", "bad-index", "pointer-outside-closure",
+	"non-collection-builtin", "bad-index",
 }
 
 func (g *c03gen) fault() string {
@@ -106,9 +106,9 @@ func (g *c03gen) fault() string {
 	case "wrong-arity":
 		return g.pick("Fi()", "Fi(1, 2)", "Mi(1)", "Ms()", "Fb(true)", "Fv()", "Mi(1, \"a\", 3)")
 	case "wrong-arg-type":
-		return g.pick("Fi(\"s\")", "Fs(true)", "Mi(\"s\", \"s\")", "Fb(1, 1)", "Ff(Str)", "Fv(1)", "Fv(\"s\", \"t\")", "Fi(F64)", "Fi(I64)", "Ms(I)")
+		return g.pick("Fi(\"s\")", "Fs(true)", "Mi(\"s\", \"s\")", "Fb(I, 1)", "Ff(Str)", "Fv(B)", "Fv(\"s\", \"t\")", "Fi(F64)", "Fi(I64)", "Ms(I)")
 	case "int-literal-to-non-numeric-param":
-		return g.pick("Fs(1)", "Ms(2)", "Fb(1, 2)", "Mi(1, 2)", "Fs(1 + 2)", "Fs(-1)")
+		return g.pick("Fs(1)", "Ms(2)", "Fb(1, 2)", "Mi(1, 2)", "Fs(1 + 2)", "Fs(-1)", "Fv(1)")
 	case "non-bool-condition":
 		return g.pick("(1 ? I : I)", "(Str ? 1 : 2)", "(St ? 1 : 2)", "(F64 ? Str : Str)")
 	case "non-bool-predicate":
@@ -151,18 +151,35 @@ func (g *c03gen) expr(t reflect.Type, d int) string {
 		if leaf {
 			return "Strs"
 		}
-		return g.pick("Strs", fmt.Sprintf("map(%s, {%s})", g.array(d-1), g.inClosure(tInt, func() string { return g.expr(tString, d-1) })),
-			fmt.Sprintf("filter(Strs, {%s})", g.inClosure(tString, func() string { return g.expr(tBool, d-1) })),
-			fmt.Sprintf("Strs[%s:%s]", g.smallInt(), g.smallInt()))
+		switch g.rng.Intn(4) {
+		case 0:
+			return fmt.Sprintf("map(%s, {%s})", g.array(d-1), g.inClosure(tInt, func() string { return g.expr(tString, d-1) }))
+		case 1:
+			return fmt.Sprintf("filter(Strs, {%s})", g.inClosure(tString, func() string { return g.expr(tBool, d-1) }))
+		case 2:
+			return fmt.Sprintf("Strs[%s:%s]", g.smallInt(), g.smallInt())
+		}
+		return "Strs"
 	case t == tAnys:
 		if leaf {
 			return "Anys"
 		}
-		return g.pick("Anys", fmt.Sprintf("[%s, %s]", g.expr(tInt, d-1), g.expr(tString, d-1)), "[]", fmt.Sprintf("[%s]", g.expr(tBool, d-1)))
+		switch g.rng.Intn(4) {
+		case 0:
+			return fmt.Sprintf("[%s, %s]", g.expr(tInt, d-1), g.expr(tString, d-1))
+		case 1:
+			return "[]"
+		case 2:
+			return fmt.Sprintf("[%s]", g.expr(tBool, d-1))
+		}
+		return "Anys"
 	case t == tAny:
-		return g.pick("Any", "Anys[0]", fmt.Sprintf("Fa(%s)", g.expr(tInt, d-1)))
+		if !leaf && g.rng.Intn(3) == 0 {
+			return fmt.Sprintf("Fa(%s)", g.expr(tInt, d-1))
+		}
+		return g.pick("Any", "Anys[0]")
 	case t == tZA:
-		return g.pick("St", "Sts[0]", fmt.Sprintf("Sts[%s]", g.smallInt()))
+		return g.pick("St", "Sts[0]", "Sts["+g.smallInt()+"]")
 	}
 	return "nil"
 }
@@ -234,7 +251,13 @@ func (g *c03gen) numeric(t reflect.Type, d int, leaf bool) string {
 	case tInt:
 		switch g.rng.Intn(8) {
 		case 0:
-			return fmt.Sprintf("len(%s)", g.pick("Ints", "Strs", "Str", "MSI", "Arr", "Anys", g.expr(tString, d-1), g.array(d-1)))
+			switch g.rng.Intn(3) {
+			case 0:
+				return fmt.Sprintf("len(%s)", g.expr(tString, d-1))
+			case 1:
+				return fmt.Sprintf("len(%s)", g.array(d-1))
+			}
+			return fmt.Sprintf("len(%s)", g.pick("Ints", "Strs", "Str", "MSI", "Arr", "Anys"))
 		case 1:
 			return fmt.Sprintf("count(%s, {%s})", g.array(d-1), g.inClosure(tInt, func() string { return g.expr(tBool, d-1) }))
 		case 2:
